@@ -24,8 +24,18 @@ def enc_answer(p, v):
         return "err other " + type(e).__name__
 
 
+def safe_decode(p, t):
+    """decode_string(t), or the exception it raised (the code under test may reject a token)"""
+    try:
+        return p.decode_string(t)
+    except Exception as e:
+        return e
+
+
 def dec_answer(p, t):
-    r = p.decode_string(t)
+    r = safe_decode(p, t)
+    if isinstance(r, Exception):
+        return "err " + ("remoting" if isinstance(r, p.RemotingException) else "other " + type(r).__name__)
     if r is None:
         return "ok n"
     try:
@@ -125,8 +135,8 @@ def stream(tier):
             bad = "reserved token misuse"
         elif v and not set(tok) <= ALPHABET:
             bad = "character outside the token alphabet"
-        elif p.decode_string(tok) != v:
-            bad = "round trip differs: %r" % (p.decode_string(tok),)
+        elif safe_decode(p, tok) != v:
+            bad = "round trip differs: %r" % (safe_decode(p, tok),)
         elif tok in seen_tokens and seen_tokens[tok] != v:
             bad = "collision with %r" % (seen_tokens[tok],)
         seen_tokens[tok] = v
@@ -145,8 +155,10 @@ def stream(tier):
             continue
         ops.append("dec " + C.hx(t))
         impl.append(dec_answer(p, t))
-        if p.decode_string(t) != s:
-            res.violation("codec:alternative encoding rejected", "decode_string(%r) != %r" % (t, s), {"token": t, "value": repr(s)})
+        got = safe_decode(p, t)
+        if got != s:
+            res.violation("codec:alternative encoding rejected", "decode_string(%r) %s, the value is %r" % (
+                t, "raises %r" % (got,) if isinstance(got, Exception) else "= %r" % (got,), s), {"token": t, "value": repr(s)})
         res.nontrivial.add("alt:" + t)
         res.distribution["alt_encodings"] += 1
     res.sample({"op": ops[-1], "impl": impl[-1]})
